@@ -28,6 +28,18 @@ PROPS = {
         'level_note': 'Trusted: Coq kernel + vm_compute, the harness. The wire clause (bare ACK / nothing on the wire) is covered by the datagram connection model of C05.',
         'explanation': 'Theorems: IsNoResponseCode model equals the RFC 7967 class/bit decision for every code and every value (unbounded), only bits 1,3,4 matter, other classes always pass, the response writer refuses exactly per the first No-Response option. Correspondence: exhaustive bit tables for all 256 codes x values 0..63, boundary/random 32-bit values, 16-bit codes, ResponseWriter.SetResponse over generated request option lists.',
     },
+    'C04': {
+        'run_vo': 'Blockwise/Run.vo', 'props_vo': 'Properties/C04.vo', 'level': 'proof',
+        'classes': {1: 'body-differs-from-supplied', 2: 'body-handed-over-more-than-once', 3: 'code-or-options-not-preserved',
+                    4: 'body-for-unknown-token', 5: 'do-returned-ok-without-response', 6: 'panic', 7: 'hang'},
+        'trusted': ['hook net/blockwise/state_verif.go (build tag verif): sizes of the sending/receiving caches'],
+        'assumptions': ['token tables are keyed by the token itself (CRC-64 collisions of Token.Hash are F18/C03, not modelled here)',
+                        'one message is handled at a time per endpoint (the per-token semaphore of messageGuard is not modelled; interleavings are at message granularity)',
+                        'memfile/bytes.Reader Seek/Read/Truncate behave as list operations'],
+        'level_text': 'see notes/C04.md',
+        'level_note': 'see notes/C04.md',
+        'explanation': 'see notes/C04.md',
+    },
 }
 
 NOT_APPLICABLE = {}
